@@ -846,8 +846,14 @@ func runNilSlotMeansEqualTypes(rr *RuleRun) {
 					if _, ok := as.Lhs[0].(*ast.IndexExpr); !ok {
 						return true
 					}
-					if call, ok := as.Rhs[0].(*ast.CallExpr); ok && isCall(info, call, "cty/convert.GetConversion", "cty/convert.GetConversionUnsafe", "cty/convert.getConversion") && len(call.Args) >= 2 && objOf(info, call.Args[0]) == tyObj {
-						retObj = objOf(info, call.Args[1])
+					if call, ok := as.Rhs[0].(*ast.CallExpr); ok && len(call.Args) >= 2 && objOf(info, call.Args[0]) == tyObj {
+						// GetConversion / GetConversionUnsafe / getConversion, or a helper of the package wrapping them:
+						// anything that yields a Conversion from (input type, result type)
+						if t := info.TypeOf(call); t != nil && strings.HasSuffix(namedType(t), "onversion") {
+							if o := objOf(info, call.Args[1]); o != nil && isCtyType(o.Type()) {
+								retObj = o
+							}
+						}
 					}
 					return true
 				})
@@ -867,16 +873,47 @@ func runNilSlotMeansEqualTypes(rr *RuleRun) {
 				}
 				key := fmt.Sprintf("%s.%s/skip if %s", pkg, declName(fd), trunc(exprStr(ifs.Cond), 50))
 				cond := ast.Unparen(ifs.Cond)
-				if be, ok := cond.(*ast.BinaryExpr); ok && be.Op == token.EQL && rs.Key != nil && (objOf(info, be.X) == objOf(info, rs.Key) || objOf(info, be.Y) == objOf(info, rs.Key)) {
-					rr.OK(key, ifs.Pos(), "the slot of the chosen input itself")
-					continue
+				// every disjunct is either 'this is the chosen input itself' or 'the whole types are equal'
+				isSelf := func(e ast.Expr) bool {
+					be, ok := ast.Unparen(e).(*ast.BinaryExpr)
+					return ok && be.Op == token.EQL && rs.Key != nil && (objOf(info, be.X) == objOf(info, rs.Key) || objOf(info, be.Y) == objOf(info, rs.Key))
 				}
-				if call, ok := cond.(*ast.CallExpr); ok && isCall(info, call, "cty.Type.Equals") && len(call.Args) == 1 {
-					a, b := objOf(info, call.Fun.(*ast.SelectorExpr).X), objOf(info, call.Args[0])
-					if (a == tyObj && b == retObj) || (a == retObj && b == tyObj) {
-						rr.OK(key, ifs.Pos(), "no conversion exactly when the input type equals the result type")
-						continue
+				isWhole := func(e ast.Expr) bool {
+					call, ok := ast.Unparen(e).(*ast.CallExpr)
+					if !ok || !isCall(info, call, "cty.Type.Equals") || len(call.Args) != 1 {
+						return false
 					}
+					a, b := objOf(info, call.Fun.(*ast.SelectorExpr).X), objOf(info, call.Args[0])
+					return (a == tyObj && b == retObj) || (a == retObj && b == tyObj)
+				}
+				var disj []ast.Expr
+				var split func(e ast.Expr)
+				split = func(e ast.Expr) {
+					if be, ok := ast.Unparen(e).(*ast.BinaryExpr); ok && be.Op == token.LOR {
+						split(be.X)
+						split(be.Y)
+						return
+					}
+					disj = append(disj, e)
+				}
+				split(cond)
+				allOK, anyWhole := true, false
+				for _, d := range disj {
+					switch {
+					case isSelf(d):
+					case isWhole(d):
+						anyWhole = true
+					default:
+						allOK = false
+					}
+				}
+				if allOK {
+					if anyWhole {
+						rr.OK(key, ifs.Pos(), "no conversion exactly when the input type equals the result type (or it is the chosen input itself)")
+					} else {
+						rr.OK(key, ifs.Pos(), "the slot of the chosen input itself")
+					}
+					continue
 				}
 				if !mentionsObj(info, cond, tyObj) {
 					continue // not a test of the input type
@@ -1008,7 +1045,7 @@ func onlyCalledUnsafe(c *Ctx, pkg string, fd *ast.FuncDecl) bool {
 
 func init() {
 	register(&Rule{
-		ID: "C03.undecided-equality-is-not-a-match", Prop: "C03", Also: []string{"C19", "C01"}, Floor: 2, Controls: 0,
+		ID: "C03.undecided-equality-is-not-a-match", Prop: "C03", Also: []string{"C19", "C01"}, Floor: 1, Controls: 0,
 		Doc: "a function of package cty that answers a Go bool ('are these two the same member / the same path step') from the cty.Value result of Value.Equals treats an unknown result as 'no': the statement that consults the result — `if COND { return false }` or `return EXPR` — is such that COND is certainly true, or EXPR certainly false, once the result's IsKnown() is false (evaluated in three-valued logic with every other sub-expression left open); an expression like !(eq.IsKnown() && eq.False()) is true for an unknown result, so a path whose index key is unknown is taken to be every concrete path of its shape and set membership of paths or values gives wrong answers",
 		Run: runUndecidedEqualityNotMatch,
 	})
@@ -1187,39 +1224,66 @@ func runNullExemptKindsHandleNull(rr *RuleRun) {
 		if !ok {
 			continue
 		}
-		terms := splitAnd(ifs.Cond)
 		hasNull := false
 		var ex []string
-		for _, t := range terms {
-			t = ast.Unparen(t)
-			if call, ok := t.(*ast.CallExpr); ok && methodCond(info, call, val, "IsNull") {
-				hasNull = true
-			}
-			if u, ok := t.(*ast.UnaryExpr); ok && u.Op == token.NOT {
-				if call, ok := ast.Unparen(u.X).(*ast.CallExpr); ok {
-					if se, ok := call.Fun.(*ast.SelectorExpr); ok && isCtyType(info.TypeOf(se.X)) && mentionsObj(info, se.X, val) {
-						switch se.Sel.Name {
-						case "IsListType":
-							ex = append(ex, "List")
-						case "IsMapType":
-							ex = append(ex, "Map")
-						case "IsSetType":
-							ex = append(ex, "Set")
-						case "IsTupleType":
-							ex = append(ex, "Tuple")
-						case "IsObjectType":
-							ex = append(ex, "Object")
-						case "IsCollectionType":
-							ex = append(ex, "List", "Map", "Set")
-						case "IsCapsuleType":
-							ex = append(ex, "Capsule")
-						case "IsPrimitiveType":
-							ex = append(ex, "Primitive")
-						}
+		// the condition as a conjunction of literals, through negated disjunctions (De Morgan) and named locals
+		var walk func(e ast.Expr, pos bool, depth int)
+		walk = func(e ast.Expr, pos bool, depth int) {
+			switch x := ast.Unparen(e).(type) {
+			case *ast.UnaryExpr:
+				if x.Op == token.NOT {
+					walk(x.X, !pos, depth)
+				}
+			case *ast.BinaryExpr:
+				if (x.Op == token.LAND && pos) || (x.Op == token.LOR && !pos) {
+					walk(x.X, pos, depth)
+					walk(x.Y, pos, depth)
+				}
+			case *ast.Ident:
+				if o := objOf(info, x); o != nil && depth < 3 {
+					if _, idx, rhs := findDefine(info, fd.Body, o); rhs != nil && idx < len(rhs) && countAssigns(info, fd.Body, o) == 0 {
+						walk(rhs[idx], pos, depth+1)
 					}
+				}
+			case *ast.CallExpr:
+				if pos && methodCond(info, x, val, "IsNull") {
+					hasNull = true
+				}
+				se, ok := x.Fun.(*ast.SelectorExpr)
+				if !ok || pos || !isCtyType(info.TypeOf(se.X)) {
+					return
+				}
+				// the type of val: val.Type() or a local defined from it
+				isValTy := mentionsObj(info, se.X, val)
+				if o := objOf(info, se.X); o != nil && !isValTy {
+					if _, idx, rhs := findDefine(info, fd.Body, o); rhs != nil && idx < len(rhs) && mentionsObj(info, rhs[idx], val) {
+						isValTy = true
+					}
+				}
+				if !isValTy {
+					return
+				}
+				switch se.Sel.Name {
+				case "IsListType":
+					ex = append(ex, "List")
+				case "IsMapType":
+					ex = append(ex, "Map")
+				case "IsSetType":
+					ex = append(ex, "Set")
+				case "IsTupleType":
+					ex = append(ex, "Tuple")
+				case "IsObjectType":
+					ex = append(ex, "Object")
+				case "IsCollectionType":
+					ex = append(ex, "List", "Map", "Set")
+				case "IsCapsuleType":
+					ex = append(ex, "Capsule")
+				case "IsPrimitiveType":
+					ex = append(ex, "Primitive")
 				}
 			}
 		}
+		walk(ifs.Cond, true, 0)
 		if hasNull && len(ex) > 0 && nullIf == nil {
 			nullIf, exempt = ifs, ex
 		}
@@ -1407,4 +1471,1018 @@ func runFlattenSequencesOnly(rr *RuleRun) {
 			rr.Violation(key, call.Pos(), fmt.Sprintf("flattener descends into an element under %s, which admits maps%s: a map nested in the sequence is replaced by its bare values (its keys are dropped), whereas a non-sequence element must stay one element of the result", bad, map[bool]string{true: " and objects", false: ""}[bad == "IsObjectType"]))
 		}
 	}
+}
+
+// ---------------------------------------------------------------------------
+
+func init() {
+	register(&Rule{
+		ID: "C11.computed-index-bounded-below", Prop: "C11", Also: []string{"C13", "C14", "C17", "C16", "C15"}, Floor: 1, Controls: 0,
+		Doc: "an index or slice bound that is computed by arithmetic (i := x - 1, end := offset + length) and that the code itself guards from above against the length (the author's stated belief that it can be out of range) is also guarded from below before it is used: a subtraction can go negative and a sum of two non-negative ints can wrap around to a negative number, which passes every 'greater than the length' test and panics in the index or slice expression — an internal panic for an argument the function should simply reject",
+		Run: runComputedIndexBoundedBelow,
+	})
+}
+
+func runComputedIndexBoundedBelow(rr *RuleRun) {
+	c := rr.Ctx
+	eachFuncBody(c, []string{"cty/function/stdlib", "cty/msgpack", "cty/json", "cty/gocty", "cty", "cty/convert", "cty/function"}, func(pkg string, fd *ast.FuncDecl, body *ast.BlockStmt) {
+		if body == nil {
+			return
+		}
+		info := c.Info(pkg)
+		// i := X ± Y, defined once
+		type comp struct {
+			obj      types.Object
+			op       token.Token
+			operands []ast.Expr
+		}
+		var comps []comp
+		inspectNoLit(body, func(n ast.Node) bool {
+			as, ok := n.(*ast.AssignStmt)
+			if !ok || as.Tok != token.DEFINE || len(as.Lhs) != 1 || len(as.Rhs) != 1 {
+				return true
+			}
+			be, ok := ast.Unparen(as.Rhs[0]).(*ast.BinaryExpr)
+			if !ok || (be.Op != token.ADD && be.Op != token.SUB) {
+				return true
+			}
+			o := objOf(info, as.Lhs[0])
+			if o == nil || countAssigns(info, body, o) != 0 {
+				return true
+			}
+			if b, ok := o.Type().Underlying().(*types.Basic); !ok || b.Info()&types.IsInteger == 0 || b.Info()&types.IsUnsigned != 0 {
+				return true
+			}
+			// constants only, or len(...) - c: no
+			_, cx := constInt(info, be.X)
+			_, cy := constInt(info, be.Y)
+			if cx && cy {
+				return true
+			}
+			if be.Op == token.SUB {
+				if cl, ok := ast.Unparen(be.X).(*ast.CallExpr); ok && isBuiltin(info, cl, "len") {
+					return true // len(x) - c: the companion of an emptiness test, not an input-derived index
+				}
+			}
+			if be.Op == token.ADD && (cx || cy) {
+				return true // i + 1: cannot go below its operand
+			}
+			comps = append(comps, comp{o, be.Op, []ast.Expr{be.X, be.Y}})
+			return true
+		})
+		if len(comps) == 0 {
+			return
+		}
+		var cf *CondFacts
+		for _, cp := range comps {
+			// uses as an index or slice bound
+			var uses []ast.Node
+			var seqs []ast.Expr
+			inspectNoLit(body, func(n ast.Node) bool {
+				switch x := n.(type) {
+				case *ast.IndexExpr:
+					if objOf(info, x.Index) == cp.obj {
+						if _, isMap := info.TypeOf(x.X).Underlying().(*types.Map); !isMap {
+							uses, seqs = append(uses, x), append(seqs, x.X)
+						}
+					}
+				case *ast.SliceExpr:
+					for _, b := range []ast.Expr{x.Low, x.High, x.Max} {
+						if b != nil && objOf(info, b) == cp.obj {
+							uses, seqs = append(uses, x), append(seqs, x.X)
+						}
+					}
+				}
+				return true
+			})
+			for ui, use := range uses {
+				if cf == nil {
+					cf = c.CondFacts(body, info, nil)
+				}
+				seq := seqs[ui]
+				isI := func(e ast.Expr) bool { return objOf(info, e) == cp.obj }
+				isLen := func(e ast.Expr) bool {
+					cl, ok := ast.Unparen(e).(*ast.CallExpr)
+					return ok && isBuiltin(info, cl, "len") && len(cl.Args) == 1 && exprStr(ast.Unparen(cl.Args[0])) == exprStr(ast.Unparen(seq))
+				}
+				upper := cf.HoldsAt(use, func(cond ast.Expr, truth bool) bool {
+					be, ok := ast.Unparen(cond).(*ast.BinaryExpr)
+					if !ok {
+						return false
+					}
+					switch {
+					case isI(be.X) && isLen(be.Y):
+						return (be.Op == token.GEQ && !truth) || (be.Op == token.GTR && !truth) || (be.Op == token.LSS && truth) || (be.Op == token.LEQ && truth)
+					case isLen(be.X) && isI(be.Y):
+						return (be.Op == token.LEQ && !truth) || (be.Op == token.LSS && !truth) || (be.Op == token.GTR && truth) || (be.Op == token.GEQ && truth)
+					}
+					return false
+				})
+				if !upper {
+					continue
+				}
+				isSmallConst := func(e ast.Expr) bool { v, ok := constInt(info, e); return ok && v >= 0 && v <= 1 }
+				lowerOn := func(isSubj func(ast.Expr) bool) bool {
+					return cf.HoldsAt(use, func(cond ast.Expr, truth bool) bool {
+						be, ok := ast.Unparen(cond).(*ast.BinaryExpr)
+						if !ok {
+							return false
+						}
+						switch {
+						case isSubj(be.X) && isSmallConst(be.Y):
+							return (be.Op == token.LSS && !truth) || (be.Op == token.LEQ && !truth) || (be.Op == token.GEQ && truth) || (be.Op == token.GTR && truth)
+						case isSmallConst(be.X) && isSubj(be.Y):
+							return (be.Op == token.GTR && !truth) || (be.Op == token.GEQ && !truth) || (be.Op == token.LEQ && truth) || (be.Op == token.LSS && truth)
+						}
+						return false
+					})
+				}
+				lower := lowerOn(isI)
+				if !lower && cp.op == token.SUB {
+					// x - 1 with x >= 1 established
+					x := cp.operands[0]
+					lower = lowerOn(func(e ast.Expr) bool { return exprStr(e) == exprStr(x) })
+				}
+				key := fmt.Sprintf("%s.%s/%s in %s", pkg, declName(fd), cp.obj.Name(), trunc(exprStr(use.(ast.Expr)), 30))
+				if lower {
+					rr.OK(key, use.Pos(), "guarded against the length and against going negative")
+				} else {
+					how := "a difference, which is negative when the subtrahend is larger"
+					if cp.op == token.ADD {
+						how = "a sum of two ints, which wraps around to a negative number when it overflows"
+					}
+					rr.Violation(key, use.Pos(), fmt.Sprintf("%s is %s (%s %s %s); the code guards it against len(%s) from above but nothing on the way establishes that it is not negative: a negative value passes the upper-bound test and this index / slice expression panics — the argument should be rejected with an error instead", cp.obj.Name(), how, trunc(exprStr(cp.operands[0]), 25), cp.op, trunc(exprStr(cp.operands[1]), 25), trunc(exprStr(seq), 25)))
+				}
+			}
+		}
+	})
+}
+
+// ---------------------------------------------------------------------------
+
+func init() {
+	register(&Rule{
+		ID: "C12.known-length-is-not-known-value", Prop: "C12", Also: []string{"C11", "C13"}, Floor: 1, Controls: 0,
+		Doc: "in the standard functions a branch taken because x.Length().IsKnown() does not call an accessor of x that needs the value itself to be known (LengthInt, ElementIterator, AsValueSlice, …) unless x.IsKnown() is part of the same condition or was established before: the length of an unknown collection refined to an exact length is a known number while the collection is still unknown, so the accessor panics — a call that succeeds with the concrete list fails with the refined unknown one",
+		Run: runKnownLengthNotKnownValue,
+	})
+	register(&Rule{
+		ID: "C05.nonstrict-consistency-needs-both-inclusive", Prop: "C05", Floor: 1, Controls: 0,
+		Doc: "the consistency assertion of a numeric refinement accepts a lower bound equal to the upper bound (compares with LessThanOrEqualTo) only on a path on which BOTH bounds were established inclusive: with either bound exclusive an equal pair admits no number at all (x > 5 and x < 5), which is a contradiction of earlier constraints that must be rejected like x >= 5 and x < 5 is",
+		Run: runNonstrictNeedsBothInclusive,
+	})
+	register(&Rule{
+		ID: "C19.step-key-null-checked", Prop: "C19", Floor: 1, Controls: 0,
+		Doc: "IndexStep.Apply hands its key to HasIndex / Index — which, like every operation, panic on a null operand — only after the key was tested not to be null: a path step whose key is a null number or string names no member, and applying it must return an error, not panic",
+		Run: runStepKeyNullChecked,
+	})
+}
+
+func runKnownLengthNotKnownValue(rr *RuleRun) {
+	c := rr.Ctx
+	n := 0
+	eachFuncBody(c, []string{"cty/function/stdlib"}, func(pkg string, fd *ast.FuncDecl, body *ast.BlockStmt) {
+		if body == nil {
+			return
+		}
+		info := c.Info(pkg)
+		var cf *CondFacts
+		inspectNoLit(body, func(nd ast.Node) bool {
+			ifs, ok := nd.(*ast.IfStmt)
+			if !ok {
+				return true
+			}
+			// x.Length().IsKnown() at positive polarity in the condition
+			var subj types.Object
+			hasKnown := map[types.Object]bool{}
+			var walk func(e ast.Expr, pos bool)
+			walk = func(e ast.Expr, pos bool) {
+				switch x := ast.Unparen(e).(type) {
+				case *ast.UnaryExpr:
+					if x.Op == token.NOT {
+						walk(x.X, !pos)
+					}
+				case *ast.BinaryExpr:
+					if x.Op == token.LAND || x.Op == token.LOR {
+						walk(x.X, pos)
+						walk(x.Y, pos)
+					}
+				case *ast.CallExpr:
+					se, ok := x.Fun.(*ast.SelectorExpr)
+					if !ok || !pos {
+						return
+					}
+					if se.Sel.Name == "IsKnown" || se.Sel.Name == "IsWhollyKnown" {
+						if inner, ok := ast.Unparen(se.X).(*ast.CallExpr); ok && isCall(info, inner, "cty.Value.Length") {
+							if o := objOf(info, inner.Fun.(*ast.SelectorExpr).X); o != nil {
+								subj = o
+							}
+						} else if o := objOf(info, se.X); o != nil && isCtyValue(o.Type()) {
+							hasKnown[o] = true
+						}
+					}
+				}
+			}
+			walk(ifs.Cond, true)
+			if subj == nil {
+				return true
+			}
+			n++
+			key := fmt.Sprintf("%s.%s/%s.Length().IsKnown()", pkg, declName(fd), subj.Name())
+			if hasKnown[subj] {
+				rr.OK(key, ifs.Pos(), "the same condition also requires the value itself to be known")
+				return true
+			}
+			if cf == nil {
+				cf = c.CondFacts(body, info, nil)
+			}
+			if cf.HoldsAt(ifs.Cond, func(cond ast.Expr, truth bool) bool { return truth && methodCond(info, cond, subj, "IsKnown", "IsWhollyKnown") }) {
+				rr.OK(key, ifs.Pos(), "the value was established known before")
+				return true
+			}
+			var bad *ast.CallExpr
+			inspectNoLit(ifs.Body, func(m ast.Node) bool {
+				call, ok := m.(*ast.CallExpr)
+				if !ok || bad != nil {
+					return true
+				}
+				se, ok := call.Fun.(*ast.SelectorExpr)
+				if !ok || objOf(info, se.X) != subj {
+					return true
+				}
+				if req, ok := valueREQ[funcKey(callee(info, call))]; ok && req.Known {
+					bad = call
+				}
+				return true
+			})
+			if bad == nil {
+				rr.OK(key, ifs.Pos(), "the branch uses the length only")
+			} else {
+				rr.Violation(key, bad.Pos(), fmt.Sprintf("%s() is called on %s in a branch that is taken when %s.Length().IsKnown(), but nothing establishes that %s itself is known: an unknown collection refined to an exact length has a known length and still panics here ('value is not known') — replacing the argument by such an unknown turns a successful call into an internal-panic error", bad.Fun.(*ast.SelectorExpr).Sel.Name, subj.Name(), subj.Name(), subj.Name()))
+			}
+			return true
+		})
+	})
+	_ = n
+}
+
+func runNonstrictNeedsBothInclusive(rr *RuleRun) {
+	c := rr.Ctx
+	pkg := "cty"
+	info := c.Info(pkg)
+	fd := rr.MustDecl(pkg, "refinementNumber.assertConsistentBounds")
+	if fd == nil {
+		return
+	}
+	cf := c.CondFacts(fd.Body, info, nil)
+	n := 0
+	inspectNoLit(fd.Body, func(nd ast.Node) bool {
+		call, ok := nd.(*ast.CallExpr)
+		if !ok || !isCall(info, call, "cty.Value.LessThanOrEqualTo", "cty.Value.GreaterThanOrEqualTo") {
+			return true
+		}
+		n++
+		key := fmt.Sprintf("%s.refinementNumber.assertConsistentBounds/%s#%d", pkg, call.Fun.(*ast.SelectorExpr).Sel.Name, n)
+		flag := func(name string) bool {
+			return cf.HoldsAt(call, func(cond ast.Expr, truth bool) bool {
+				se, ok := ast.Unparen(cond).(*ast.SelectorExpr)
+				return ok && truth && se.Sel.Name == name
+			})
+		}
+		if flag("minInc") && flag("maxInc") {
+			rr.OK(key, call.Pos(), "equal bounds are accepted only where both are inclusive")
+		} else {
+			rr.Violation(key, call.Pos(), "the consistency assertion accepts a lower bound equal to the upper bound on a path on which the two bounds were not both established inclusive: an exclusive bound equal to the other bound (x > 5 and x < 5) admits no number, yet it is accepted as consistent instead of being rejected as a contradiction of the earlier constraint")
+		}
+		return true
+	})
+	if n == 0 {
+		rr.Assumed(pkg+".refinementNumber.assertConsistentBounds/nonstrict", fd.Pos(), "no non-strict comparison of the bounds: equal bounds are never accepted here, or the test is written in a form this rule does not follow")
+	}
+}
+
+func runStepKeyNullChecked(rr *RuleRun) {
+	c := rr.Ctx
+	pkg := "cty"
+	info := c.Info(pkg)
+	fd := rr.MustDecl(pkg, "IndexStep.Apply")
+	if fd == nil {
+		return
+	}
+	recv := recvObj(info, fd)
+	isKey := func(e ast.Expr) bool {
+		se, ok := ast.Unparen(e).(*ast.SelectorExpr)
+		return ok && se.Sel.Name == "Key" && objOf(info, se.X) == recv
+	}
+	cf := c.CondFacts(fd.Body, info, nil)
+	n := 0
+	inspectNoLit(fd.Body, func(nd ast.Node) bool {
+		call, ok := nd.(*ast.CallExpr)
+		if !ok || opOperands(info, call) == nil {
+			return true
+		}
+		uses := false
+		for _, a := range call.Args {
+			if isKey(a) {
+				uses = true
+			}
+		}
+		if !uses {
+			return true
+		}
+		n++
+		key := fmt.Sprintf("%s.IndexStep.Apply/%s(s.Key)#%d", pkg, call.Fun.(*ast.SelectorExpr).Sel.Name, n)
+		notNull := cf.HoldsAt(call, func(cond ast.Expr, truth bool) bool {
+			cl, ok := ast.Unparen(cond).(*ast.CallExpr)
+			if !ok || truth {
+				return false
+			}
+			se, ok := cl.Fun.(*ast.SelectorExpr)
+			return ok && se.Sel.Name == "IsNull" && isKey(se.X)
+		})
+		if notNull {
+			rr.OK(key, call.Pos(), "the key was tested not to be null")
+		} else {
+			rr.Violation(key, call.Pos(), fmt.Sprintf("the step's key is handed to %s without having been tested for null: a null number or string key passes the type test above and makes the operation panic, where applying a step that names no member must return an error", call.Fun.(*ast.SelectorExpr).Sel.Name))
+		}
+		return true
+	})
+}
+
+// ---------------------------------------------------------------------------
+
+func init() {
+	register(&Rule{
+		ID: "C14.submatch-offset-zero-is-a-match", Prop: "C14", Also: []string{"C11"}, Floor: 2, Controls: 0,
+		Doc: "an offset taken from the result of the regexp package's …SubmatchIndex functions is tested for 'this group did not take part in the match' only by its sign (< 0, >= 0, == -1): the package reports absent groups with negative offsets and 0 is an ordinary offset — a test that treats 0 like a negative value (<= 0, == 0, > 0) turns an empty capture at the start of the string into 'no capture' (a null instead of an empty string)",
+		Run: runSubmatchOffsetZero,
+	})
+}
+
+func runSubmatchOffsetZero(rr *RuleRun) {
+	c := rr.Ctx
+	pkg := "cty/function/stdlib"
+	info := c.Info(pkg)
+	isIndexFn := func(call *ast.CallExpr) bool {
+		f := callee(info, call)
+		if f == nil || f.Pkg() == nil || f.Pkg().Path() != "regexp" {
+			return false
+		}
+		return strings.HasSuffix(f.Name(), "Index") && strings.Contains(f.Name(), "Submatch")
+	}
+	taintedSlices := map[types.Object]bool{} // []int or [][]int carrying offsets
+	taintedInts := map[types.Object]bool{}
+	isIntSliceish := func(t types.Type) bool {
+		s, ok := t.Underlying().(*types.Slice)
+		if !ok {
+			return false
+		}
+		if b, ok := s.Elem().Underlying().(*types.Basic); ok && b.Kind() == types.Int {
+			return true
+		}
+		if s2, ok := s.Elem().Underlying().(*types.Slice); ok {
+			if b, ok := s2.Elem().Underlying().(*types.Basic); ok && b.Kind() == types.Int {
+				return true
+			}
+		}
+		return false
+	}
+	var exprTaintedSlice func(e ast.Expr) bool
+	exprTaintedSlice = func(e ast.Expr) bool {
+		switch x := ast.Unparen(e).(type) {
+		case *ast.Ident:
+			return taintedSlices[objOf(info, x)]
+		case *ast.CallExpr:
+			return isIndexFn(x)
+		case *ast.SliceExpr:
+			return exprTaintedSlice(x.X)
+		case *ast.IndexExpr:
+			// an element of a [][]int
+			if t := info.TypeOf(x); t != nil && isIntSliceish(t) {
+				return exprTaintedSlice(x.X)
+			}
+		}
+		return false
+	}
+	exprTaintedInt := func(e ast.Expr) bool {
+		switch x := ast.Unparen(e).(type) {
+		case *ast.Ident:
+			return taintedInts[objOf(info, x)]
+		case *ast.IndexExpr:
+			if t := info.TypeOf(x); t != nil {
+				if b, ok := t.Underlying().(*types.Basic); ok && b.Kind() == types.Int {
+					return exprTaintedSlice(x.X)
+				}
+			}
+		}
+		return false
+	}
+	var bodies []struct {
+		fd   *ast.FuncDecl
+		body *ast.BlockStmt
+	}
+	eachFuncBody(c, []string{pkg}, func(_ string, fd *ast.FuncDecl, body *ast.BlockStmt) {
+		if body != nil {
+			bodies = append(bodies, struct {
+				fd   *ast.FuncDecl
+				body *ast.BlockStmt
+			}{fd, body})
+		}
+	})
+	for round := 0; round < 6; round++ {
+		changed := false
+		mark := func(m map[types.Object]bool, o types.Object) {
+			if o != nil && !m[o] {
+				m[o] = true
+				changed = true
+			}
+		}
+		for _, b := range bodies {
+			ast.Inspect(b.body, func(n ast.Node) bool {
+				switch x := n.(type) {
+				case *ast.AssignStmt:
+					if len(x.Lhs) == len(x.Rhs) {
+						for i := range x.Lhs {
+							if exprTaintedSlice(x.Rhs[i]) {
+								mark(taintedSlices, objOf(info, x.Lhs[i]))
+							}
+							if exprTaintedInt(x.Rhs[i]) {
+								mark(taintedInts, objOf(info, x.Lhs[i]))
+							}
+						}
+					}
+				case *ast.RangeStmt:
+					if exprTaintedSlice(x.X) && x.Value != nil {
+						if t := info.TypeOf(x.Value); t != nil && isIntSliceish(t) {
+							mark(taintedSlices, objOf(info, x.Value))
+						} else {
+							mark(taintedInts, objOf(info, x.Value))
+						}
+					}
+				case *ast.CallExpr:
+					// into a helper of the package
+					f := callee(info, x)
+					if f == nil || f.Pkg() == nil || shortPkg(f.Pkg()) != pkg {
+						return true
+					}
+					d := c.Decl(pkg, funcDeclKey(f))
+					if d == nil {
+						return true
+					}
+					for i, a := range x.Args {
+						pid := paramIdent(d, i)
+						if pid == nil {
+							continue
+						}
+						if exprTaintedSlice(a) {
+							mark(taintedSlices, info.Defs[pid])
+						}
+						if exprTaintedInt(a) {
+							mark(taintedInts, info.Defs[pid])
+						}
+					}
+				}
+				return true
+			})
+		}
+		if !changed {
+			break
+		}
+	}
+	n := 0
+	for _, b := range bodies {
+		ast.Inspect(b.body, func(nd ast.Node) bool {
+			be, ok := nd.(*ast.BinaryExpr)
+			if !ok {
+				return true
+			}
+			var op token.Token
+			var subj ast.Expr
+			if z, ok := constInt(info, be.Y); ok && z == 0 && exprTaintedInt(be.X) {
+				op, subj = be.Op, be.X
+			} else if z, ok := constInt(info, be.X); ok && z == 0 && exprTaintedInt(be.Y) {
+				subj = be.Y
+				switch be.Op { // 0 OP x  ≡  x OP' 0
+				case token.LSS:
+					op = token.GTR
+				case token.GTR:
+					op = token.LSS
+				case token.LEQ:
+					op = token.GEQ
+				case token.GEQ:
+					op = token.LEQ
+				default:
+					op = be.Op
+				}
+			} else {
+				return true
+			}
+			n++
+			key := fmt.Sprintf("%s.%s/%s %s 0#%d", pkg, declName(b.fd), trunc(exprStr(subj), 25), op, n)
+			switch op {
+			case token.LSS, token.GEQ:
+				rr.OK(key, be.Pos(), "the sign of the offset decides, as the regexp package specifies")
+			case token.LEQ, token.EQL, token.GTR, token.NEQ:
+				rr.Violation(key, be.Pos(), fmt.Sprintf("'%s' treats the offset 0 like 'no match': offsets reported by regexp's …SubmatchIndex functions are negative for a group that did not take part and 0 is a real position, so an empty capture at the start of the string is reported as absent (null instead of \"\")", exprStr(be)))
+			}
+			return true
+		})
+	}
+}
+
+// ---------------------------------------------------------------------------
+
+func init() {
+	register(&Rule{
+		ID: "C18.map-key-assignable", Prop: "C18", Floor: 2, Controls: 0,
+		Doc: "wherever gocty indexes or fills a Go map through reflection with a key made from a Go string (MapIndex / SetMapIndex with reflect.ValueOf(s)), the map's key type was tested to be of string kind on the way (an error otherwise) and the key is converted to the map's own key type (or is one of the map's own MapKeys()): reflect panics when the key value is not assignable to the key type — map[int]T, or a named string key type — where a shape the bridge does not support must be an error",
+		Run: runMapKeyAssignable,
+	})
+}
+
+func runMapKeyAssignable(rr *RuleRun) {
+	c := rr.Ctx
+	pkg := "cty/gocty"
+	info := c.Info(pkg)
+	for _, fd := range c.SortedDecls(pkg) {
+		if fd.Body == nil {
+			continue
+		}
+		var calls []*ast.CallExpr
+		ast.Inspect(fd.Body, func(n ast.Node) bool {
+			if call, ok := n.(*ast.CallExpr); ok && isCall(info, call, "reflect.Value.SetMapIndex", "reflect.Value.MapIndex") && len(call.Args) >= 1 {
+				calls = append(calls, call)
+			}
+			return true
+		})
+		if len(calls) == 0 {
+			continue
+		}
+		// a test of the key kind anywhere before, in this function, that exits: if X.Key().Kind() != reflect.String { return … }
+		keyKindTest := token.NoPos
+		ast.Inspect(fd.Body, func(n ast.Node) bool {
+			ifs, ok := n.(*ast.IfStmt)
+			if !ok {
+				return true
+			}
+			mentionsKeyKind := false
+			ast.Inspect(ifs.Cond, func(m ast.Node) bool {
+				if call, ok := m.(*ast.CallExpr); ok && isCall(info, call, "reflect.Type.Kind") {
+					if inner, ok := ast.Unparen(call.Fun.(*ast.SelectorExpr).X).(*ast.CallExpr); ok && isCall(info, inner, "reflect.Type.Key") {
+						mentionsKeyKind = true
+					}
+					if id := objOf(info, call.Fun.(*ast.SelectorExpr).X); id != nil {
+						if _, idx, rhs := findDefine(info, fd.Body, id); rhs != nil && idx < len(rhs) {
+							if inner, ok := ast.Unparen(rhs[idx]).(*ast.CallExpr); ok && isCall(info, inner, "reflect.Type.Key") {
+								mentionsKeyKind = true
+							}
+						}
+					}
+				}
+				return true
+			})
+			if !mentionsKeyKind || len(ifs.Body.List) == 0 {
+				return true
+			}
+			if _, ok := ifs.Body.List[len(ifs.Body.List)-1].(*ast.ReturnStmt); ok && (keyKindTest == token.NoPos || ifs.Pos() < keyKindTest) {
+				keyKindTest = ifs.Pos()
+			}
+			return true
+		})
+		for i, call := range calls {
+			key := fmt.Sprintf("%s.%s/%s#%d", pkg, declName(fd), call.Fun.(*ast.SelectorExpr).Sel.Name, i+1)
+			k := ast.Unparen(call.Args[0])
+			// the key expression: reflect.ValueOf(s) | X.Convert(T) | an element of MapKeys()
+			fromString, converted, ownKey := false, false, false
+			var classify func(e ast.Expr, depth int)
+			classify = func(e ast.Expr, depth int) {
+				switch x := ast.Unparen(e).(type) {
+				case *ast.CallExpr:
+					if isCall(info, x, "reflect.Value.Convert") {
+						converted = true
+					} else if isCall(info, x, "reflect.ValueOf") && len(x.Args) == 1 {
+						if b, ok := info.TypeOf(x.Args[0]).Underlying().(*types.Basic); ok && b.Kind() == types.String {
+							fromString = true
+						}
+					}
+				case *ast.Ident:
+					o := objOf(info, x)
+					if o == nil || depth > 2 {
+						return
+					}
+					// range variable over MapKeys()
+					ast.Inspect(fd.Body, func(m ast.Node) bool {
+						if rs, ok := m.(*ast.RangeStmt); ok && rs.Value != nil && objOf(info, rs.Value) == o {
+							if mk, ok := ast.Unparen(rs.X).(*ast.CallExpr); ok && isCall(info, mk, "reflect.Value.MapKeys") {
+								ownKey = true
+							}
+						}
+						return true
+					})
+					if _, idx, rhs := findDefine(info, fd.Body, o); rhs != nil && idx < len(rhs) {
+						classify(rhs[idx], depth+1)
+					}
+				}
+			}
+			classify(k, 0)
+			switch {
+			case ownKey:
+				rr.OK(key, call.Pos(), "the key is one of the map's own keys")
+			case !fromString && !converted:
+				rr.Assumed(key, call.Pos(), "the key is not built from a Go string in a form this rule follows: no verdict")
+			case keyKindTest == token.NoPos || keyKindTest > call.Pos():
+				rr.Violation(key, call.Pos(), fmt.Sprintf("%s is called with a key made from a Go string, but %s never tests the kind of the Go map's key type: for a map whose keys are not strings (map[int]T) reflect panics ('value of type string is not assignable to type int') instead of the bridge returning an error", call.Fun.(*ast.SelectorExpr).Sel.Name, declName(fd)))
+			case !converted:
+				rr.Violation(key, call.Pos(), fmt.Sprintf("%s is called with reflect.ValueOf of a plain string: the key kind was tested, but a map whose key type is a named string type (type K string) has string kind and still does not accept a plain string value — reflect panics; convert the key to the map's key type (or use the map's own key)", call.Fun.(*ast.SelectorExpr).Sel.Name))
+			default:
+				rr.OK(key, call.Pos(), "the key kind was tested and the key is converted to the map's key type")
+			}
+		}
+	}
+}
+
+// ---------------------------------------------------------------------------
+
+func init() {
+	register(&Rule{
+		ID: "C09.index-from-the-same-sequence", Prop: "C09", Also: []string{"C08"}, Floor: 2, Controls: 0,
+		Doc: "where a function of package convert picks some positions out of its input slice into an index list (idxs = append(idxs, i) under a condition, with a parallel slice of the picked items) and later walks that list with `for i, idx := range idxs`, a slice that is laid out like the input (made with len(input), or returned for it by a unification function) is indexed with idx and a slice laid out like the picked items is indexed with i — never the other way round: the ordinal among the picked items and the position in the input are both small ints, so the swap compiles, stays in bounds, and hands an input the conversion that belongs to a different input",
+		Run: runIndexFromSameSequence,
+	})
+}
+
+func runIndexFromSameSequence(rr *RuleRun) {
+	c := rr.Ctx
+	pkg := "cty/convert"
+	info := c.Info(pkg)
+	// summaries: result #k of f is laid out like parameter #j
+	type sumKey struct {
+		f string
+		k int
+	}
+	summary := map[sumKey]int{}
+	decls := c.SortedDecls(pkg)
+	// layoutParam: e is laid out like parameter #j of fd (-1: known to be something else, -2: nothing known yet)
+	var layoutParam func(fd *ast.FuncDecl, e ast.Expr, depth int) int
+	layoutParam = func(fd *ast.FuncDecl, e ast.Expr, depth int) int {
+		o := objOf(info, e)
+		if o == nil || depth > 4 {
+			return -1
+		}
+		j := 0
+		for _, f := range fd.Type.Params.List {
+			for _, nm := range f.Names {
+				if info.Defs[nm] == o {
+					return j
+				}
+				j++
+			}
+		}
+		def, idx, rhs := findDefine(info, fd.Body, o)
+		if rhs == nil {
+			return -1
+		}
+		if len(rhs) == 1 {
+			if call, ok := ast.Unparen(rhs[0]).(*ast.CallExpr); ok {
+				if isBuiltin(info, call, "make") && len(call.Args) >= 2 {
+					if ln, ok := ast.Unparen(call.Args[1]).(*ast.CallExpr); ok && isBuiltin(info, ln, "len") && len(ln.Args) == 1 {
+						return layoutParam(fd, ln.Args[0], depth+1)
+					}
+					return -1
+				}
+				// x, y := g(…): position of o among the left-hand sides
+				k := idx
+				if as, ok := def.(*ast.AssignStmt); ok && len(as.Lhs) > 1 {
+					for i, l := range as.Lhs {
+						if objOf(info, l) == o {
+							k = i
+						}
+					}
+				}
+				name := funcDeclKey2(info, call)
+				if name == "" {
+					return -1
+				}
+				if jj, ok := summary[sumKey{name, k}]; ok && jj < len(call.Args) {
+					return layoutParam(fd, call.Args[jj], depth+1)
+				}
+				return -2
+			}
+		}
+		return -1
+	}
+	alignedParam := func(fd *ast.FuncDecl, e ast.Expr) int { return layoutParam(fd, e, 0) }
+	for round := 0; round < 4; round++ {
+		for _, fd := range decls {
+			if fd.Body == nil || fd.Type.Results == nil {
+				continue
+			}
+			nres := 0
+			for _, f := range fd.Type.Results.List {
+				if len(f.Names) == 0 {
+					nres++
+				} else {
+					nres += len(f.Names)
+				}
+			}
+			for k := 0; k < nres; k++ {
+				if _, done := summary[sumKey{declName(fd), k}]; done {
+					continue
+				}
+				agreed, any := -2, false
+				inspectNoLit(fd.Body, func(n ast.Node) bool {
+					ret, ok := n.(*ast.ReturnStmt)
+					if !ok {
+						return true
+					}
+					var e ast.Expr
+					if len(ret.Results) == nres {
+						e = ret.Results[k]
+					} else if len(ret.Results) == 1 {
+						// return g(args…): through g's summary
+						if call, ok := ast.Unparen(ret.Results[0]).(*ast.CallExpr); ok {
+							if j, ok := summary[sumKey{funcDeclKey2(info, call), k}]; ok && j < len(call.Args) {
+								e = call.Args[j] // laid out like this argument
+								if o := objOf(info, e); o != nil {
+									pj := 0
+									found := -1
+									for _, f := range fd.Type.Params.List {
+										for _, nm := range f.Names {
+											if info.Defs[nm] == o {
+												found = pj
+											}
+											pj++
+										}
+									}
+									if found >= 0 {
+										any = true
+										if agreed == -2 || agreed == found {
+											agreed = found
+										} else {
+											agreed = -1
+										}
+									}
+								}
+							}
+						}
+						return true
+					} else {
+						return true
+					}
+					if isNilIdent(info, e) {
+						return true
+					}
+					if t := info.TypeOf(e); t == nil {
+						return true
+					} else if _, isSlice := t.Underlying().(*types.Slice); !isSlice {
+						return true
+					}
+					j := alignedParam(fd, e)
+					if j == -2 {
+						return true // depends on a summary not known yet: no information from this path
+					}
+					any = true
+					if j < 0 {
+						agreed = -1
+					} else if agreed == -2 || agreed == j {
+						agreed = j
+					} else {
+						agreed = -1
+					}
+					return true
+				})
+				if any && agreed >= 0 {
+					summary[sumKey{declName(fd), k}] = agreed
+				}
+			}
+		}
+	}
+	for _, fd := range decls {
+		if fd.Body == nil {
+			continue
+		}
+		parent := map[types.Object]types.Object{}
+		var find func(o types.Object) types.Object
+		find = func(o types.Object) types.Object {
+			if p, ok := parent[o]; ok && p != o {
+				r := find(p)
+				parent[o] = r
+				return r
+			}
+			return o
+		}
+		union := func(a, b types.Object) {
+			if a == nil || b == nil {
+				return
+			}
+			ra, rb := find(a), find(b)
+			if ra != rb {
+				parent[ra] = rb
+			}
+		}
+		selOf := map[types.Object]types.Object{} // index list → the slice its elements index
+		// 1. index lists and their parallel slices
+		inspectNoLit(fd.Body, func(n ast.Node) bool {
+			rs, ok := n.(*ast.RangeStmt)
+			if !ok || rs.Key == nil {
+				return true
+			}
+			x, iv := objOf(info, rs.X), objOf(info, rs.Key)
+			if x == nil || iv == nil {
+				return true
+			}
+			inspectNoLit(rs.Body, func(m ast.Node) bool {
+				ifs, ok := m.(*ast.IfStmt)
+				if !ok {
+					return true
+				}
+				var lists, others []types.Object
+				for _, st := range ifs.Body.List {
+					as, ok := st.(*ast.AssignStmt)
+					if !ok || len(as.Lhs) != 1 || len(as.Rhs) != 1 {
+						continue
+					}
+					ap, ok := as.Rhs[0].(*ast.CallExpr)
+					if !ok || !isBuiltin(info, ap, "append") || len(ap.Args) != 2 || objOf(info, ap.Args[0]) != objOf(info, as.Lhs[0]) {
+						continue
+					}
+					if objOf(info, ap.Args[1]) == iv {
+						lists = append(lists, objOf(info, as.Lhs[0]))
+					} else {
+						others = append(others, objOf(info, as.Lhs[0]))
+					}
+				}
+				for _, l := range lists {
+					selOf[l] = x
+					for _, o := range others {
+						union(o, l)
+					}
+				}
+				return true
+			})
+			return true
+		})
+		if len(selOf) == 0 {
+			continue
+		}
+		// 2. slices laid out like another: make(T, len(X)); results of summarised calls
+		inspectNoLit(fd.Body, func(n ast.Node) bool {
+			as, ok := n.(*ast.AssignStmt)
+			if !ok || len(as.Rhs) != 1 {
+				return true
+			}
+			call, ok := ast.Unparen(as.Rhs[0]).(*ast.CallExpr)
+			if !ok {
+				return true
+			}
+			if isBuiltin(info, call, "make") && len(call.Args) >= 2 && len(as.Lhs) == 1 {
+				if ln, ok := ast.Unparen(call.Args[1]).(*ast.CallExpr); ok && isBuiltin(info, ln, "len") && len(ln.Args) == 1 {
+					union(objOf(info, as.Lhs[0]), objOf(info, ln.Args[0]))
+				}
+				return true
+			}
+			name := funcDeclKey2(info, call)
+			for k, l := range as.Lhs {
+				if j, ok := summary[sumKey{name, k}]; ok && j < len(call.Args) {
+					union(objOf(info, l), objOf(info, call.Args[j]))
+				}
+			}
+			return true
+		})
+		// 3. the loops over an index list
+		inspectNoLit(fd.Body, func(n ast.Node) bool {
+			rs, ok := n.(*ast.RangeStmt)
+			if !ok {
+				return true
+			}
+			l := objOf(info, rs.X)
+			src, isList := selOf[l]
+			if !isList {
+				return true
+			}
+			var ord, elem types.Object
+			if rs.Key != nil {
+				ord = objOf(info, rs.Key)
+			}
+			if rs.Value != nil {
+				elem = objOf(info, rs.Value)
+			}
+			inspectNoLit(rs.Body, func(m ast.Node) bool {
+				ix, ok := m.(*ast.IndexExpr)
+				if !ok {
+					return true
+				}
+				s, i := objOf(info, ix.X), objOf(info, ix.Index)
+				if s == nil || i == nil || (i != ord && i != elem) {
+					return true
+				}
+				if _, isSlice := s.Type().Underlying().(*types.Slice); !isSlice {
+					return true
+				}
+				likeInput, likePicked := find(s) == find(src), find(s) == find(l)
+				key := fmt.Sprintf("%s.%s/%s[%s]", pkg, declName(fd), s.Name(), i.Name())
+				switch {
+				case likeInput && i == ord && ord != nil:
+					rr.Violation(key, ix.Pos(), fmt.Sprintf("%s is laid out like the input %s (one entry per input) but is indexed with %s, the ordinal among the entries picked into %s: the entry read belongs to a different input than the one being handled — index it with the position taken out of %s", s.Name(), src.Name(), i.Name(), l.Name(), l.Name()))
+				case likePicked && i == elem && elem != nil:
+					rr.Violation(key, ix.Pos(), fmt.Sprintf("%s has one entry per item picked into %s but is indexed with %s, a position in the input %s: the wrong entry is read, or the index is out of range", s.Name(), l.Name(), i.Name(), src.Name()))
+				case likeInput || likePicked:
+					rr.OK(key, ix.Pos(), "indexed with the variable that belongs to the sequence the slice is laid out like")
+				}
+				return true
+			})
+			return true
+		})
+	}
+}
+
+// ---------------------------------------------------------------------------
+
+func init() {
+	register(&Rule{
+		ID: "C04.dynamic-test-sees-through-marks", Prop: "C04", Also: []string{"C12", "C11", "C13"}, Floor: 0, Controls: 0,
+		Doc: "in the standard functions a member taken out of a value that the function unmarked only at the top (Unmark, not UnmarkDeep) is not compared with cty.DynamicVal by Go identity: a marked DynamicVal is a different Go value, so the test is false for it and the member is treated as an ordinary known leaf — the marked call answers with a known result where the unmarked call answers unknown",
+		Run: runDynamicTestSeesThroughMarks,
+	})
+}
+
+func runDynamicTestSeesThroughMarks(rr *RuleRun) {
+	c := rr.Ctx
+	pkg := "cty/function/stdlib"
+	info := c.Info(pkg)
+	eachFuncBody(c, []string{pkg}, func(_ string, fd *ast.FuncDecl, body *ast.BlockStmt) {
+		if body == nil {
+			return
+		}
+		// containers unmarked at the top only
+		shallow := map[types.Object]bool{}
+		inspectNoLit(body, func(n ast.Node) bool {
+			as, ok := n.(*ast.AssignStmt)
+			if !ok || len(as.Rhs) != 1 || len(as.Lhs) != 2 {
+				return true
+			}
+			if call, ok := as.Rhs[0].(*ast.CallExpr); ok && isCall(info, call, "cty.Value.Unmark") {
+				if o := objOf(info, as.Lhs[0]); o != nil {
+					shallow[o] = true
+				}
+			}
+			return true
+		})
+		if len(shallow) == 0 {
+			return
+		}
+		// iterators over them, and the members taken out
+		iters := map[types.Object]bool{}
+		members := map[types.Object]bool{}
+		inspectNoLit(body, func(n ast.Node) bool {
+			switch x := n.(type) {
+			case *ast.AssignStmt:
+				if len(x.Rhs) != 1 {
+					return true
+				}
+				call, ok := x.Rhs[0].(*ast.CallExpr)
+				if !ok {
+					return true
+				}
+				se, ok := call.Fun.(*ast.SelectorExpr)
+				if !ok {
+					return true
+				}
+				if isCall(info, call, "cty.Value.ElementIterator") && shallow[objOf(info, se.X)] && len(x.Lhs) == 1 {
+					iters[objOf(info, x.Lhs[0])] = true
+				}
+				if isCall(info, call, "cty.ElementIterator.Element") && iters[objOf(info, se.X)] && len(x.Lhs) == 2 {
+					members[objOf(info, x.Lhs[1])] = true
+				}
+			case *ast.RangeStmt:
+				if call, ok := ast.Unparen(x.X).(*ast.CallExpr); ok && isCall(info, call, "cty.Value.AsValueSlice", "cty.Value.AsValueMap") && x.Value != nil {
+					if se, ok := call.Fun.(*ast.SelectorExpr); ok && shallow[objOf(info, se.X)] {
+						members[objOf(info, x.Value)] = true
+					}
+				}
+			}
+			return true
+		})
+		// `for it := x.ElementIterator(); it.Next(); { _, v := it.Element() }`: the init is an AssignStmt too (covered)
+		n := 0
+		inspectNoLit(body, func(nd ast.Node) bool {
+			be, ok := nd.(*ast.BinaryExpr)
+			if !ok || (be.Op != token.EQL && be.Op != token.NEQ) {
+				return true
+			}
+			var subj types.Object
+			if isPkgVar(info, be.Y, "cty", "DynamicVal") {
+				subj = objOf(info, be.X)
+			} else if isPkgVar(info, be.X, "cty", "DynamicVal") {
+				subj = objOf(info, be.Y)
+			}
+			if subj == nil || !members[subj] || countAssigns(info, body, subj) > 0 {
+				return true
+			}
+			n++
+			key := fmt.Sprintf("%s.%s/%s %s cty.DynamicVal#%d", pkg, declName(fd), subj.Name(), be.Op, n)
+			rr.Violation(key, be.Pos(), fmt.Sprintf("%s is a member of a value that was unmarked only at the top, so it may itself be marked, and it is compared with cty.DynamicVal by identity: a marked DynamicVal is not recognised, the function treats it as a known leaf and returns a known result where the same call without the mark returns unknown (the member may still turn out to be a sequence)", subj.Name()))
+			return true
+		})
+	})
 }
